@@ -276,7 +276,7 @@ theorem registry_deploy_agreement (steps : List RegStep) (kgc tc : Nat) (hk : 0 
     rw [if_neg (by omega)]
   exact ⟨_, hD, (deploy_agreement kgc tc ops srs _ hD hne hnd k ns d t).2.2⟩
 
-/-- non-vacuity: three operators registered out of order, one runner; the deployment exists, the key "hello" (group 5 of 7)
+/-- non-vacuity: three operators registered out of order, one runner; the deployment exists, the key "hello" (group 6 of 7)
 is addressed to operator `[3]`, which owns it, and operators `[1]`, `[2]` do not -/
 example :
     let r := Reg.run [.regOp [3], .regSr [9], .regOp [1], .regOp [2], .regOp [1]]
@@ -293,6 +293,71 @@ example :
     ((srHandleDeploy ⟨[[1],[1]], 2⟩).bind (srRoute · [104,101,108,108,111])) = some [1] ∧
     ((opHandleDeploy [1] ⟨[[1],[1]], [], 2⟩).map fun st => st.owns (st.dbKey [104,101,108,108,111] [] [])) = some false := by
   decide
+
+/-! ### Timers: the per-key-group queues of a deployed operator (`NewTimerStore`) -/
+
+/-- the timer of a key the operator owns is pushed to queue `key group − range.Start` (`IndexOf`), that queue exists, and it is
+the queue that loads from / persists under the key's own group -/
+theorem timer_queue_of_owned (st : OpState) (hk : 0 < st.kgc) (hk2 : st.kgc ≤ 65535) (k : Bytes) (t : Nat)
+    (h : st.owns (st.timerKey k t) = true) :
+    st.timerQueueIndex k t = keyGroup st.kgc k - st.range.start ∧
+    st.timerQueueIndex k t < st.timerQueues.length ∧
+    st.timerQueues[st.timerQueueIndex k t]? = some (keyGroup st.kgc k) := by
+  have hg : keyGroup st.kgc k < 65536 := by
+    have := Nat.mod_lt (Murmur.hash k 0).toNat hk; unfold keyGroup; omega
+  have hb : Bytes.beNat ((st.timerKey k t).take 2) = keyGroup st.kgc k := by
+    unfold OpState.timerKey Keys.timerKey
+    simp only [List.append_assoc]
+    exact Keys.beNat_u16be _ hg _
+  have hinc : st.range.includes (keyGroup st.kgc k) = true := by
+    unfold OpState.owns Keys.ownsKey at h
+    rw [hb] at h; exact h
+  simp only [KGRange.includes, Gen.kgIncludes, Bool.and_eq_true, decide_eq_true_eq] at hinc
+  have hi : st.timerQueueIndex k t = keyGroup st.kgc k - st.range.start := by
+    unfold OpState.timerQueueIndex; rw [hb]; rfl
+  rw [hi]
+  simp only [OpState.timerQueues, KGRange.keyGroups, KGRange.size, Gen.kgSize, List.length_range']
+  refine ⟨trivial, by omega, ?_⟩
+  rw [List.getElem?_range' (by omega)]
+  simp; omega
+
+/-- the queues of an operator serve exactly the key groups of its range -/
+theorem timer_queues_are_range (st : OpState) (g : Nat) : g ∈ st.timerQueues ↔ st.range.includes g = true := by
+  simp only [OpState.timerQueues, KGRange.keyGroups, KGRange.size, Gen.kgSize, List.mem_range'_1, KGRange.includes, Gen.kgIncludes,
+    Bool.and_eq_true, decide_eq_true_eq]
+  omega
+/-- over a whole deployment every key group has exactly one timer queue: the operators' queues, in operator order, are
+the groups `0, 1, …, kgc-1` -/
+theorem deploy_timer_queues (kgc wc : Nat) (ops srs : List NodeId) (D : Deployment)
+    (hD : deploy kgc wc ops srs = some D) (hne : ops ≠ []) (hnd : ops.Nodup) :
+    (D.opReqs.flatMap fun x => match opHandleDeploy x.1 x.2 with | some st => st.timerQueues | none => []) = List.range kgc := by
+  unfold deploy at hD
+  split at hD
+  · cases hD
+  · rename_i hc
+    cases hD
+    have hn : 0 < ops.length := List.length_pos_iff.mpr hne
+    have hmap : ops.map (fun o => (ranges kgc ops.length).getD (List.idxOf o ops) ⟨0, 0⟩) = ranges kgc ops.length := by
+      apply List.ext_getElem
+      · simp [ranges_length]
+      · intro i h1 h2
+        simp only [List.getElem_map]
+        rw [hnd.idxOf_getElem i (by simpa using h1)]
+        simp [List.getD_eq_getElem?_getD, h2]
+    rw [← keyGroups_partition kgc ops.length hn, ← hmap]
+    simp only [List.flatMap_map]
+    simp only [List.flatMap_def]
+    congr 1
+    apply List.map_congr_left
+    intro o ho
+    have hidx : List.idxOf o ops < ops.length := List.idxOf_lt_length_iff.mpr ho
+    simp only [opHandleDeploy]
+    rw [if_neg (by omega)]
+    rfl
+
+example :
+    ((opHandleDeploy [3] ⟨[[1],[2],[3]], [[9]], 7⟩).map fun st => (st.timerQueues, st.timerQueueIndex [104,101,108,108,111] 5)) = some ([5, 6], 1) ∧
+    ((opHandleDeploy [2] ⟨[[1],[2],[3]], [[9]], 7⟩).map fun st => st.timerQueues) = some [3, 4] := by decide
 
 /-- MurmurHash3 x86_32 reference vectors: a finite sample standing for "`Murmur.hash` is MurmurHash3-32" (there is no
 reference specification to prove against). Published vectors (smhasher verification inputs and the widely used
